@@ -1,6 +1,6 @@
 (** C07 — macro expansion is hygienic: property theorems only. *)
 From Coq Require Import NArith List Bool.
-From ChibiV Require Import C07.Env C07.EnvProofs C07.Expand C07.RenamerProofs C07.ExpandProofs.
+From ChibiV Require Import C07.Env C07.EnvProofs C07.Expand C07.RenamerProofs C07.ScopeProofs C07.ExpandProofs.
 Import ListNotations.
 
 (** referential transparency: an identifier inserted by a macro (closure object over the definition
@@ -131,3 +131,80 @@ Theorem expand_equivariant : forall a b m args n n' x,
   expand m (map (swapU a b) args) n = Some (n', swapU a b x).
 Proof. exact expand_equivariant_proof. Qed.
 Print Assumptions expand_equivariant.
+
+(** ** round 2: scoping of the local macro binding forms ([bind_syntax] mirrors analyze_let_syntax_aux +
+    analyze_bind_syntax, eval.c:1005-1094; it is part of [resolve], which is compared with (chibi ast) analyze) *)
+
+(** let-syntax closes every transformer in the OUTER environment *)
+Theorem let_syntax_transformers_closed_outside : forall cfv rho specs base next fr ms n',
+  bind_syntax false cfv rho specs base next = Some (fr, ms, n') ->
+  Forall (fun m => m_env m = rho) ms.
+Proof. exact let_syntax_transformers_closed_outside_proof. Qed.
+Print Assumptions let_syntax_transformers_closed_outside.
+
+(** letrec-syntax closes every transformer in (new frame :: outer environment) *)
+Theorem letrec_syntax_transformers_closed_inside : forall cfv rho specs base next fr ms n',
+  bind_syntax true cfv rho specs base next = Some (fr, ms, n') ->
+  Forall (fun m => m_env m = fr :: rho) ms.
+Proof. exact letrec_syntax_transformers_closed_inside_proof. Qed.
+Print Assumptions letrec_syntax_transformers_closed_inside.
+
+(** both forms bind every keyword, as a macro, in the NEW frame (found with localp = true) *)
+Theorem syntax_keywords_bound_in_new_frame : forall recp cfv rho specs base next fr ms n' k,
+  bind_syntax recp cfv rho specs base next = Some (fr, ms, n') ->
+  memq k (spec_keys specs) = true ->
+  exists c, cell_loc1 (fr :: rho) k true = Some c /\ is_macro_cell c.
+Proof. exact syntax_keywords_bound_in_new_frame_proof. Qed.
+Print Assumptions syntax_keywords_bound_in_new_frame.
+
+(** an identifier inserted by the template of a let-syntax macro means what its name means OUTSIDE the
+    let-syntax form, whatever the form itself binds (sibling keywords, the macro's own name) and whatever
+    the use site U binds under the bare name *)
+Theorem let_syntax_inserted_name_resolves_outside :
+  forall cfv rho specs base next fr ms n' m U i s,
+  bind_syntax false cfv rho specs base next = Some (fr, ms, n') -> In m ms ->
+  fresh_key (Clo i (m_env m) [] (Sym s)) (U ++ fr :: rho) ->
+  env_cell [] (U ++ fr :: rho) (Clo i (m_env m) [] (Sym s)) false = sym_cell rho s.
+Proof. exact let_syntax_inserted_name_resolves_outside_proof. Qed.
+Print Assumptions let_syntax_inserted_name_resolves_outside.
+
+(** for letrec-syntax the lookup starts at the new frame ... *)
+Theorem letrec_syntax_inserted_name_resolves_inside :
+  forall cfv rho specs base next fr ms n' m U i s,
+  bind_syntax true cfv rho specs base next = Some (fr, ms, n') -> In m ms ->
+  fresh_key (Clo i (m_env m) [] (Sym s)) (U ++ fr :: rho) ->
+  env_cell [] (U ++ fr :: rho) (Clo i (m_env m) [] (Sym s)) false = sym_cell (fr :: rho) s.
+Proof. exact letrec_syntax_inserted_name_resolves_inside_proof. Qed.
+Print Assumptions letrec_syntax_inserted_name_resolves_inside.
+
+(** ... so the name of a sibling keyword denotes the sibling macro *)
+Theorem letrec_syntax_sibling_name_is_sibling :
+  forall cfv rho specs base next fr ms n' m U i s,
+  bind_syntax true cfv rho specs base next = Some (fr, ms, n') -> In m ms ->
+  memq (Sym s) (spec_keys specs) = true ->
+  fresh_key (Clo i (m_env m) [] (Sym s)) (U ++ fr :: rho) ->
+  exists c, env_cell [] (U ++ fr :: rho) (Clo i (m_env m) [] (Sym s)) false = Some c /\ is_macro_cell c.
+Proof. exact letrec_syntax_sibling_name_is_sibling_proof. Qed.
+Print Assumptions letrec_syntax_sibling_name_is_sibling.
+
+(** ** round 2: the renamer on identifiers that are already closures (macro-generated macros) *)
+
+(** a closure handed to rename is closed once more in a NEW object: never returned as is, same underlying
+    name, different from everything remembered *)
+Theorem renamer_closure_arg_fresh : forall E n memo i E0 fv e rs' c,
+  memo_ok E (n, memo) -> (i < n)%N -> assq (Clo i E0 fv e) memo = None ->
+  rename E (n, memo) (Clo i E0 fv e) = (rs', c) ->
+  c = Clo n E [] (Clo i E0 fv e) /\ key_eqb c (Clo i E0 fv e) = false /\
+  id_name c = id_name e /\ fst rs' = N.succ n /\
+  (forall k v, In (k, v) memo -> key_eqb v c = false).
+Proof. exact renamer_closure_arg_fresh_proof. Qed.
+Print Assumptions renamer_closure_arg_fresh.
+
+(** two expansions (renamers working at different allocation counters) give different objects for the
+    same identifier, symbol or closure *)
+Theorem renamer_distinct_across_expansions : forall E1 E2 x n1 m1 n2 m2 rs1 c1 rs2 c2,
+  assq x m1 = None -> assq x m2 = None -> n1 <> n2 ->
+  rename E1 (n1, m1) x = (rs1, c1) -> rename E2 (n2, m2) x = (rs2, c2) ->
+  key_eqb c1 c2 = false.
+Proof. exact renamer_distinct_across_expansions_proof. Qed.
+Print Assumptions renamer_distinct_across_expansions.
